@@ -559,6 +559,66 @@ fn interleaved(spec: SutSpec, seed: u64, kinds: (&str, &str), max_chunks: usize)
     (n, findings)
 }
 
+/// Several clients whose versions hang on the *same* parent id (every client's first version
+/// hangs on nil; clients continuing a history from elsewhere can share any parent) and whose
+/// snapshots are for the same version id: each reads back its own bytes, in every order of
+/// reading, the second time as well as the first.
+fn shared_parent(spec: SutSpec, seed: u64) -> (u64, Vec<Value>) {
+    let mut n = 0u64;
+    let mut findings = vec![];
+    let sizes = [1usize, 20, 300, 4097, 65_536, 65_537, 300_000];
+    for (round, parent) in [Uuid::nil(), crate::sut::det_uuid(seed, 61, 1)].into_iter().enumerate() {
+        for &sz in &sizes {
+            let mut sut = Sut::new(spec, Config { days: 14, versions: 100 });
+            let clients: Vec<Uuid> = (0..3).map(|c| client_uuid(seed, c)).collect();
+            let payloads: Vec<Vec<u8>> = (0..3).map(|c| gen("random", sz + c, seed ^ (c as u64 + 1) * 7919)).collect();
+            let mut ids = vec![];
+            for (c, cu) in clients.iter().enumerate() {
+                if !spec.is_http() {
+                    let st = sut.storage().clone();
+                    if let Ok(mut txn) = st.txn(*cu) {
+                        let _ = txn.new_client(Uuid::nil());
+                        let _ = txn.commit();
+                    };
+                }
+                match sut.call(&Req::AddVersion { c: *cu, parent, data: payloads[c].clone() }) {
+                    Resp::AvOk { id, .. } => ids.push(id),
+                    other => {
+                        findings.push(json!({"class": "shared-parent|not-served", "payload": format!("random:{}", sz + c), "chunking": "-", "msg": format!("client {c}: first version on parent {parent} answered {:?}", other)}));
+                        ids.push(Uuid::nil());
+                    }
+                }
+                // a snapshot for the shared parent id itself (accepted or not is the server's
+                // business; what is returned afterwards must be this client's or nothing)
+                let _ = sut.call(&Req::AddSnapshot { c: *cu, v: parent, data: format!("snapshot of client {c}, round {round}, size {sz}").into_bytes() });
+            }
+            for order in [[0usize, 1, 2], [2, 1, 0], [1, 0, 2], [0, 1, 2]] {
+                for c in order {
+                    n += 1;
+                    match sut.call(&Req::GetChild { c: clients[c], parent }) {
+                        Resp::GcFound { id, data, .. } => {
+                            if id != ids[c] || data != payloads[c] {
+                                findings.push(json!({"class": "shared-parent|bytes-differ", "payload": format!("random:{}", sz + c), "chunking": "-", "msg": format!("three clients with a version on the same parent {parent}: client {c} uploaded {} as {} and reads back {} as {id}", hex(&payloads[c]), ids[c], hex(&data))}));
+                            }
+                        }
+                        other => findings.push(json!({"class": "shared-parent|not-served", "payload": format!("random:{}", sz + c), "chunking": "-", "msg": format!("client {c}: GetChildVersion({parent}) answered {:?}", other)})),
+                    }
+                    if let Resp::GsFound { data, .. } = sut.call(&Req::GetSnapshot { c: clients[c] }) {
+                        let want = format!("snapshot of client {c}, round {round}, size {sz}").into_bytes();
+                        if data != want {
+                            findings.push(json!({"class": "shared-parent|snapshot-bytes-differ", "payload": format!("size {sz}"), "chunking": "-", "msg": format!("client {c} reads back a snapshot of {} it did not upload", hex(&data))}));
+                        }
+                    }
+                }
+            }
+            if findings.len() > 10 {
+                return (n, findings);
+            }
+        }
+    }
+    (n, findings)
+}
+
 /// One task: {spec, route, items:[{class,len} | {text} | {byte} | {bytes2}] , chunking:bool}
 pub fn worker_main() {
     crate::pool::serve(|pv| {
@@ -571,6 +631,13 @@ pub fn worker_main() {
                 let r = std::panic::catch_unwind(std::panic::AssertUnwindSafe(|| stalled(spec, seed)));
                 return match r {
                     Ok((n, f)) => json!({"roundtrips": n, "chunkings": 0, "stalled": n, "findings": f}),
+                    Err(e) => json!({"error": format!("payload worker panicked: {}", crate::sut::panic_msg(e))}),
+                };
+            }
+            if task["shared_parent"].as_bool().unwrap_or(false) {
+                let r = std::panic::catch_unwind(std::panic::AssertUnwindSafe(|| shared_parent(spec, seed)));
+                return match r {
+                    Ok((n, f)) => json!({"roundtrips": n, "chunkings": 0, "interleavings": 0, "findings": f}),
                     Err(e) => json!({"error": format!("payload worker panicked: {}", crate::sut::panic_msg(e))}),
                 };
             }
